@@ -54,6 +54,25 @@ int main(int argc, char** argv)
         }
         return 0;
     }
+    if (!strcmp(argv[1], "case") && argc >= 3) {
+        // the string form of a media type with a quality, in another letter case (parameter and type names are case-insensitive)
+        int v = atoi(argv[2]);
+        MediaType m(Type::Text, Subtype::Html);
+        m.setQuality(Q(uint16_t(v)));
+        std::string text = m.toString();
+        for (auto& ch : text) ch = char(toupper((unsigned char)ch));
+        try {
+            MediaType p = MediaType::fromString(text);
+            if (p.top() != Type::Text || p.sub() != Subtype::Html || !p.q().has_value() || int(p.q()->value()) != v || p.getParam("Q").has_value() || p.getParam("q").has_value()) {
+                printf("REPRODUCED: \"%s\" parses back with quality %d%s\n", text.c_str(), p.q().has_value() ? int(p.q()->value()) : -1, p.getParam("Q").has_value() ? " and an ordinary parameter Q" : "");
+                return 1;
+            }
+        } catch (const std::exception& e) {
+            printf("REPRODUCED: \"%s\" is rejected: %s\n", text.c_str(), e.what());
+            return 1;
+        }
+        return 0;
+    }
     if (!strcmp(argv[1], "text") && argc >= 3) {
         std::vector<char> bytes;
         for (const char* s = argv[2]; s[0] && s[1]; s += 2) { char b[3] = { s[0], s[1], 0 }; bytes.push_back(char(strtoul(b, nullptr, 16))); }
